@@ -148,6 +148,8 @@ UNITS = {
             I(RAW, r'^impl < T > RawIterRange < T >$', 'next_impl', impl='RawIterRange<T>', key='RawIterRange::next_impl'),
             I(RAW, r'^impl < T > RawIterRange < T >$', 'fold_impl', impl='RawIterRange<T>', key='RawIterRange::fold_impl'),
             I(RAW, r'^impl < T > Iterator for RawIter < T >$', 'next', impl='RawIter<T>', key='RawIter::next'),
+            I(RAW, r'^impl FullBucketsIndices$', 'next_impl', impl='FullBucketsIndices', key='FullBucketsIndices::next_impl'),
+            I(RAW, r'^impl Iterator for FullBucketsIndices$', 'next', impl='FullBucketsIndices', key='FullBucketsIndices::next'),
         ],
     ),
     # C13 / C01 / C06 / C04: rehash_in_place (no-unwind path): every element re-placed where a lookup finds it
@@ -564,6 +566,14 @@ def iter_rules(toks, i, out, hit):
         return close + 1
     if t.text == '.' and i + 3 < n and [x.text for x in toks[i + 1:i + 4]] == ['cast', '(', ')']:
         hit('R15c_pointer_cast_dropped')
+        return i + 4
+    # R15d: NonNull<u8> is the same index: `.as_ptr()` dropped, `NonNull::new_unchecked(E)` -> `(E)`, type `NonNull<u8>` -> `usize`
+    if t.text == '.' and i + 3 < n and [x.text for x in toks[i + 1:i + 4]] == ['as_ptr', '(', ')']:
+        hit('R15d_nonnull_as_ptr_dropped')
+        return i + 4
+    if t.text == 'NonNull' and i + 4 < n and [x.text for x in toks[i + 1:i + 5]] == [':', ':', 'new_unchecked', '(']:
+        hit('R15d_nonnull_new_unchecked_dropped')
+        toks[i + 4].gap = t.gap
         return i + 4
     return None
 
